@@ -167,7 +167,7 @@ func checkC18(w *World, r *Report) {
 					}
 					x = x.Args[0]
 				}
-				return x.Op == "param"
+				return uncell(x).Op == "param" // the message itself, or the message captured by a check closure
 			}
 			for _, positive := range []bool{false, true} {
 				vr := &vbRule{match: match, positive: positive}
